@@ -1,0 +1,26 @@
+//go:build verif
+
+package consumer
+
+// VerifConsumerSnap is the verification snapshot of a consumer.
+type VerifConsumerSnap struct {
+	ID     uint64      `json:"id"`
+	Tag    string      `json:"tag"`
+	Queue  string      `json:"queue"`
+	NoAck  bool        `json:"noack"`
+	Status int         `json:"status"` // 0 started, 1 stopped, 2 paused
+	Token  bool        `json:"token"`
+	Qos    [][4]uint64 `json:"qos"`
+}
+
+// VerifSnap returns the verification snapshot of a consumer.
+func (consumer *Consumer) VerifSnap() VerifConsumerSnap {
+	consumer.statusLock.RLock()
+	defer consumer.statusLock.RUnlock()
+	s := VerifConsumerSnap{ID: consumer.ID, Tag: consumer.ConsumerTag, Queue: consumer.Queue, NoAck: consumer.noAck,
+		Status: consumer.status, Token: len(consumer.consume) > 0}
+	for _, q := range consumer.qos {
+		s.Qos = append(s.Qos, q.VerifState())
+	}
+	return s
+}
